@@ -88,17 +88,25 @@ Theorem C20_selectedcontent_refuted : ~ selectedcontent_property false.
 Proof. exact selectedcontent_refuted. Qed.
 Print Assumptions C20_selectedcontent_refuted.
 
-(* ... and, behind that typo, the search is breadth first and the copies keep
-   the originals' parent links (both still wrong once `self.data` is repaired) *)
-Theorem C20_selectedcontent_order_refuted_after_repair : ~ selectedcontent_property true.
-Proof. exact selectedcontent_order_refuted_after_repair. Qed.
-Print Assumptions C20_selectedcontent_order_refuted_after_repair.
+(* ... and, behind that typo, the search was breadth first and looked at local names only: repaired in /repo (tree
+   order, HTML elements).  On the witnesses the repaired model refines the specification, cloning included. *)
+Theorem C20_clone_witnesses_refine_after_repair :
+  abs (state_of (rrun true (w1 ++ [OpCloneOption 4]))) = run (w1 ++ [OpCloneOption 4]) /\
+  abs (state_of (rrun true (w2 ++ [OpCloneOption 6]))) = run (w2 ++ [OpCloneOption 6]) /\
+  length (rkids (state_of (rrun true (w2 ++ [OpCloneOption 6]))) 4) = 1 /\
+  rkids (state_of (rrun true (w2 ++ [OpCloneOption 6]))) 5 = [].
+Proof. exact clone_witnesses_refine_after_repair. Qed.
+Print Assumptions C20_clone_witnesses_refine_after_repair.
 
-Theorem C20_parent_links_refuted_after_repair :
-  exists ops s, rc_contract_run true rinit ops = true /\ rrun true ops = Ok s /\
-                exists n p, rparent s n = Some p /\ ~ In n (rkids s p).
-Proof. exact parent_links_refuted_after_repair. Qed.
-Print Assumptions C20_parent_links_refuted_after_repair.
+(* (the parent links of the copies and of the children they replace were repaired in /repo: the former
+   refutation is now a pair of positive witnesses; a TEST by vm_compute, not the invariant for cloning sequences) *)
+Theorem C20_parent_links_repaired_witnesses :
+  links_ok_b (state_of (rrun true (w1 ++ [OpCloneOption 4]))) = true /\
+  links_ok_b (state_of (rrun true (w1b ++ [OpCloneOption 4]))) = true /\
+  rparent (state_of (rrun true (w1b ++ [OpCloneOption 4]))) 3 = None /\
+  length (rkids (state_of (rrun true (w1b ++ [OpCloneOption 4]))) 2) = 2.
+Proof. exact parent_links_repaired_witnesses. Qed.
+Print Assumptions C20_parent_links_repaired_witnesses.
 
 (* outside the contract (tree builders always detach first; the trait text would
    allow it): append_before_sibling of an EARLIER sibling under the same parent
